@@ -1,8 +1,7 @@
 import NfcVerif.Lemmas.PduRound
 /-!
-# The decoder agrees with the independent reading of the frame formats
-(PDU types without a parameter list; the types with TLV lists and AGF are
-covered by the differential tie `spec` of the check, not by a theorem)
+# The decoder agrees with the independent reading `Spec.decode` of the frame formats,
+for every octet string
 -/
 namespace NfcVerif.Pdu
 open NfcVerif
@@ -12,13 +11,254 @@ def toOpt {α : Type} : Py α → Option α
   | .ok a => some a
   | .error _ => none
 
+@[simp] theorem toOpt_ok {α : Type} (a : α) : toOpt (Except.ok a : Py α) = some a := rfl
+@[simp] theorem toOpt_error {α : Type} (e : Exc) : toOpt (Except.error e : Py α) = none := rfl
+
+theorem toOpt_bind {α β : Type} (x : Py α) (f : α → Py β) :
+    toOpt (x >>= f) = (toOpt x).bind (fun a => toOpt (f a)) := by
+  cases x <;> rfl
+
+theorem toOpt_eq_some {α : Type} {x : Py α} {a : α} (h : toOpt x = some a) : x = .ok a := by
+  cases x with
+  | ok b => simp at h; rw [h]
+  | error e => simp at h
+
+theorem toOpt_eq_none {α : Type} {x : Py α} (h : toOpt x = none) : ∃ e, x = .error e := by
+  cases x with
+  | ok b => simp at h
+  | error e => exact ⟨e, rfl⟩
+
 /-- PDU types whose information field is not a parameter list and not an aggregate -/
 def plainType (t : Nat) : Prop :=
   t = 0 ∨ t = 3 ∨ t = 5 ∨ t = 7 ∨ t = 8 ∨ t = 11 ∨ t = 12 ∨ t = 13 ∨ t = 14 ∨ t = 15
 
+/-- `(T, V)` of `Parameter.decode` for a parameter of the format reading -/
+def tlvOf : Spec.Param → Nat × TlvV
+  | .version v => (1, .num v) | .miux v => (2, .num v) | .wks v => (3, .num v) | .lto v => (4, .num v)
+  | .rw v => (5, .num v) | .sn v => (6, .raw v) | .opt v => (7, .num v) | .sdreq t n => (8, .sdreq t n)
+  | .sdres t s => (9, .sdres t s) | .ecpk v => (10, .raw v) | .rn v => (11, .raw v)
+  | .other t v => (if 1 ≤ t ∧ t ≤ 11 then 0 else t, .raw v)
+
 namespace Impl
 
-theorem decode_cons2 (b0 b1 : Nat) (info : Bytes) (h1 : b1 < 256) :
+/-! ## one parameter -/
+
+theorem paramDecode_spec' (t : Nat) (v tail : Bytes) :
+    toOpt (paramDecode (t :: v.length :: (v ++ tail)) 0)
+      = (Spec.param t v).map (fun p => (t, v.length, (tlvOf p).2)) := by
+  rw [paramDecode_eq, paramRaw_head]
+  simp only [Py.bind_ok]
+  by_cases h1 : t = 1
+  · subst h1; rcases v with _ | ⟨x, _ | ⟨y, zs⟩⟩ <;> simp [Spec.param, tlvOf, unpackB]
+  by_cases h2 : t = 2
+  · subst h2; rcases v with _ | ⟨x, _ | ⟨y, _ | ⟨z, zs⟩⟩⟩ <;> simp [Spec.param, tlvOf, unpackH]
+  by_cases h3 : t = 3
+  · subst h3; rcases v with _ | ⟨x, _ | ⟨y, _ | ⟨z, zs⟩⟩⟩ <;> simp [Spec.param, tlvOf, unpackH]
+  by_cases h4 : t = 4
+  · subst h4; rcases v with _ | ⟨x, _ | ⟨y, zs⟩⟩ <;> simp [Spec.param, tlvOf, unpackB]
+  by_cases h5 : t = 5
+  · subst h5; rcases v with _ | ⟨x, _ | ⟨y, zs⟩⟩ <;> simp [Spec.param, tlvOf, unpackB]
+  by_cases h6 : t = 6
+  · subst h6; simp [Spec.param, tlvOf]
+  by_cases h7 : t = 7
+  · subst h7; rcases v with _ | ⟨x, _ | ⟨y, zs⟩⟩ <;> simp [Spec.param, tlvOf, unpackB]
+  by_cases h8 : t = 8
+  · subst h8
+    rcases v with _ | ⟨x, zs⟩
+    · simp [Spec.param]
+    · have c : 1 + zs.length ≤ zs.length + 1 := by omega
+      simp [Spec.param, tlvOf, unpackB, unpackS, c]
+  by_cases h9 : t = 9
+  · subst h9; rcases v with _ | ⟨x, _ | ⟨y, _ | ⟨z, zs⟩⟩⟩ <;> simp [Spec.param, tlvOf, unpackBB]
+  by_cases h10 : t = 10
+  · subst h10; simp [Spec.param, tlvOf]
+  by_cases h11 : t = 11
+  · subst h11; simp [Spec.param, tlvOf]
+  simp [Spec.param, tlvOf, h1, h2, h3, h4, h5, h6, h7, h8, h9, h10, h11]
+
+theorem param_type {t : Nat} {v : Bytes} {p : Spec.Param} (h : Spec.param t v = some p) : (tlvOf p).1 = t := by
+  unfold Spec.param at h
+  repeat' split at h
+  all_goals first
+    | (cases h; done)
+    | (cases h; dsimp only [tlvOf]; omega)
+    | (cases h; dsimp only [tlvOf]; split <;> omega)
+
+/-! ## parameter lists -/
+
+/-- what a class decoder does with one parameter of the format reading -/
+def specStep {σ : Type} (app : σ → Nat → TlvV → σ) (s : σ) (p : Spec.Param) : σ :=
+  app s (tlvOf p).1 (tlvOf p).2
+
+theorem params_nil (n : Nat) : Spec.params n [] = some [] := by cases n <;> rfl
+theorem params_single (n x : Nat) : Spec.params n [x] = some [] := by cases n <;> rfl
+theorem params_cons (k t l : Nat) (rest : Bytes) :
+    Spec.params (k + 1) (t :: l :: rest) =
+      if rest.length < l then none else
+      match Spec.param t (rest.take l), Spec.params k (rest.drop l) with
+      | some p, some ps => some (p :: ps)
+      | _, _ => none := rfl
+
+theorem run_single {σ : Type} (app : σ → Nat → TlvV → σ) (x : Nat) (st : σ) : run app [x] st = .ok st := by
+  unfold run; exact tlvLoop_done _ _ _ _ _ _ (by simp)
+
+theorem run_error {σ : Type} (app : σ → Nat → TlvV → σ) (t l : Nat) (rest : Bytes) (st : σ) (e : Exc)
+    (h : paramDecode (t :: l :: rest) 0 = .error e) : run app (t :: l :: rest) st = .error e := by
+  unfold run
+  have hlen : (t :: l :: rest).length = (rest.length + 1) + 1 := by simp
+  rw [hlen, tlvLoop_succ _ _ _ _ _ _ (by omega), h]
+  rfl
+
+theorem paramDecode_short (t l : Nat) (rest : Bytes) (h : rest.length < l) :
+    ∃ e, paramDecode (t :: l :: rest) 0 = .error e := by
+  have c : ¬ (2 + l ≤ rest.length + 1 + 1) := by omega
+  refine ⟨.decodeError, ?_⟩
+  rw [paramDecode_eq]
+  simp [paramRaw, structToDecode, wrapExc, unpackBB, unpackS, c]
+
+theorem run_spec {σ : Type} (app : σ → Nat → TlvV → σ) (n : Nat) (info : Bytes) (st : σ) (hn : info.length ≤ n) :
+    toOpt (run app info st) = (Spec.params n info).map (fun ps => ps.foldl (specStep app) st) := by
+  induction n generalizing info st with
+  | zero =>
+    have : info = [] := by cases info <;> simp_all
+    subst this
+    simp [run_nil, params_nil]
+  | succ k ih =>
+    match info, hn with
+    | [], _ => simp [run_nil, params_nil]
+    | [x], _ => simp [run_single, params_single]
+    | t :: l :: rest, hn =>
+      rw [params_cons]
+      by_cases hl : rest.length < l
+      · obtain ⟨e, he⟩ := paramDecode_short t l rest hl
+        simp [run_error app t l rest st e he, hl]
+      · simp only [hl, if_false]
+        have e1 : rest = rest.take l ++ rest.drop l := (List.take_append_drop l rest).symm
+        have e2 : (rest.take l).length = l := by simp; omega
+        have hspec := paramDecode_spec' t (rest.take l) (rest.drop l)
+        rw [e2, ← e1] at hspec
+        cases hp : Spec.param t (rest.take l) with
+        | none =>
+          rw [hp] at hspec
+          obtain ⟨e, he⟩ := toOpt_eq_none hspec
+          simp [run_error app t l rest st e he]
+        | some p =>
+          rw [hp] at hspec
+          have hdec := toOpt_eq_some hspec
+          have hrun := run_cons app (t :: l :: rest.take l) (rest.drop l) t l (tlvOf p).2 st
+            (by simpa [← e1] using hdec) (by simp; omega)
+          have e3 : (t :: l :: rest.take l) ++ rest.drop l = t :: l :: rest := by simp [← e1]
+          rw [e3] at hrun
+          have hlen : (rest.drop l).length ≤ k := by simp at hn ⊢; omega
+          rw [hrun, ih (rest.drop l) _ hlen]
+          have hstep : app st t (tlvOf p).2 = specStep app st p := by
+            unfold specStep; rw [param_type hp]
+          rw [hstep]
+          cases Spec.params k (rest.drop l) <;> simp
+
+/-! ## what the class decoders keep of a parameter list -/
+
+/-- `match o with | some v => h v | none => d` as a named function -/
+def orElse {α β : Type} (o : Option α) (h : α → β) (d : β) : β :=
+  match o with
+  | some v => h v
+  | none => d
+
+theorem lastSome_eq {α : Type} (f : Spec.Param → Option α) (ps : List Spec.Param) :
+    Spec.lastSome f ps = ps.foldl (fun acc p => orElse (f p) some acc) none := by
+  unfold Spec.lastSome
+  congr 1
+
+theorem fold_gen {σ α : Type} (step : σ → Spec.Param → σ) (proj : σ → α) (g : α → Spec.Param → α)
+    (hstep : ∀ s p, proj (step s p) = g (proj s) p) (s : σ) (ps : List Spec.Param) :
+    proj (ps.foldl step s) = ps.foldl g (proj s) := by
+  induction ps generalizing s with
+  | nil => rfl
+  | cons p ps ih => simp only [List.foldl_cons]; rw [ih, hstep]
+
+theorem lastSome_field {σ α : Type} (step : σ → Spec.Param → σ) (proj : σ → Option α) (f : Spec.Param → Option α)
+    (hstep : ∀ s p, proj (step s p) = orElse (f p) some (proj s))
+    (s : σ) (ps : List Spec.Param) (hs : proj s = none) :
+    proj (ps.foldl step s) = Spec.lastSome f ps := by
+  rw [lastSome_eq, ← hs]
+  exact fold_gen step proj (fun acc p => orElse (f p) some acc) hstep s ps
+
+theorem lastSome_nat {σ : Type} (step : σ → Spec.Param → σ) (proj : σ → Nat) (f : Spec.Param → Option Nat)
+    (h : Nat → Nat) (d : Nat)
+    (hstep : ∀ s p, proj (step s p) = orElse (f p) h (proj s))
+    (s : σ) (ps : List Spec.Param) (hs : proj s = d) :
+    proj (ps.foldl step s) = orElse (Spec.lastSome f ps) h d := by
+  rw [lastSome_eq]
+  have gen : ∀ (ps : List Spec.Param) (s : σ) (a : Option Nat), proj s = orElse a h d →
+      proj (ps.foldl step s) = orElse (ps.foldl (fun acc p => orElse (f p) some acc) a) h d := by
+    intro ps
+    induction ps with
+    | nil => intro s a ha; exact ha
+    | cons p ps ih =>
+      intro s a ha
+      simp only [List.foldl_cons]
+      apply ih
+      rw [hstep]
+      cases f p with
+      | none => exact ha
+      | some v => rfl
+  exact gen ps s none hs
+
+theorem filterMap_field {σ α : Type} (step : σ → Spec.Param → σ) (proj : σ → List α) (f : Spec.Param → Option α)
+    (hstep : ∀ s p, proj (step s p) = orElse (f p) (fun v => proj s ++ [v]) (proj s))
+    (s : σ) (ps : List Spec.Param) :
+    proj (ps.foldl step s) = proj s ++ ps.filterMap f := by
+  induction ps generalizing s with
+  | nil => simp
+  | cons p ps ih =>
+    simp only [List.foldl_cons, List.filterMap_cons]
+    rw [ih, hstep]
+    cases f p <;> simp [orElse]
+
+theorem paxApp_raw (s : PaxSt) (t : Nat) (v : Bytes) : paxApp s t (.raw v) = s := by
+  unfold paxApp; split <;> first | rfl | simp_all
+theorem paxApp_sdreq (s : PaxSt) (t a : Nat) (v : Bytes) : paxApp s t (.sdreq a v) = s := by
+  unfold paxApp; split <;> first | rfl | simp_all
+theorem paxApp_sdres (s : PaxSt) (t a b : Nat) : paxApp s t (.sdres a b) = s := by
+  unfold paxApp; split <;> first | rfl | simp_all
+
+theorem connApp_other (s : ConnSt) (t : Nat) (v : Bytes) (h : t ≠ 6) : connApp s t (.raw v) = s := by
+  unfold connApp; split <;> first | rfl | simp_all
+theorem ccApp_raw (s : ConnSt) (t : Nat) (v : Bytes) : ccApp s t (.raw v) = s := by
+  unfold ccApp; split <;> first | rfl | simp_all
+theorem snlApp_raw (s : SnlSt) (t : Nat) (v : Bytes) : snlApp s t (.raw v) = s := by
+  unfold snlApp; split <;> first | rfl | simp_all
+theorem dpsApp_other (s : DpsSt) (t : Nat) (v : Bytes) (h : t ≠ 10) (h' : t ≠ 11) : dpsApp s t (.raw v) = s := by
+  unfold dpsApp; split <;> first | rfl | simp_all
+
+theorem other_ne (t k : Nat) (hk : 1 ≤ k ∧ k ≤ 11) : (if 1 ≤ t ∧ t ≤ 11 then 0 else t) ≠ k := by
+  split <;> omega
+
+/-! ## every PDU that is not an aggregate -/
+
+theorem tlvLoop_cons2 {σ : Type} (app : σ → Nat → TlvV → σ) (b0 b1 : Nat) (info : Bytes) (st : σ) :
+    tlvLoop app (info.length + 2 - 2) (b0 :: b1 :: info) (0 + 2) (info.length + 2 - 2) st = run app info st := by
+  have h : info.length + 2 - 2 = info.length := by omega
+  rw [h]
+  exact tlvLoop_shift app info.length [b0, b1] info 0 info.length st
+
+theorem nested_cons2 (b0 b1 : Nat) (info : Bytes) (h1 : b1 < 256) :
+    decodeNested (b0 :: b1 :: info) 0 (info.length + 2) =
+      match kindOf ((b0 % 4) * 4 + b1 / 64) with
+      | .agf => throw .decodeError
+      | .simple dec => dec (b0 :: b1 :: info) 0 (info.length + 2) := by
+  unfold decodeNested decodePre
+  have c1 : ¬ (0 + (info.length + 2) > (b0 :: b1 :: info).length) := by simp
+  have c2 : ¬ (info.length + 2 < 2) := by omega
+  have e : (b0 * 256 + b1) / 64 % 16 = (b0 % 4) * 4 + b1 / 64 := by omega
+  have sl : sliceN (b0 :: b1 :: info) 0 (0 + (info.length + 2)) = b0 :: b1 :: info := by
+    have := sliceN_all (b0 :: b1 :: info)
+    simpa using this
+  simp only [c1, c2, if_false, sl]
+  simp [unpackH, e]
+  rfl
+
+theorem decodeAt_cons2 (b0 b1 : Nat) (info : Bytes) (h1 : b1 < 256) :
     decode (b0 :: b1 :: info) =
       match kindOf ((b0 % 4) * 4 + b1 / 64) with
       | .agf => decAgf (b0 :: b1 :: info) 0 (info.length + 2)
@@ -31,54 +271,278 @@ theorem decode_cons2 (b0 b1 : Nat) (info : Bytes) (h1 : b1 < 256) :
   simp [unpackH, e]
   rfl
 
-theorem short_decode (b : Bytes) (h : b.length < 2) : toOpt (decode b) = Spec.decode b := by
-  match b, h with
-  | [], _ => rfl
-  | [_], _ => rfl
+theorem getD_orElse (o : Option Nat) (d : Nat) : o.getD d = orElse o id d := by cases o <;> rfl
+theorem add_getD_orElse (o : Option Nat) : 128 + o.getD 0 = orElse o (fun v => 128 + v) 128 := by cases o <;> rfl
+theorem orElse_add (o : Option Nat) : orElse o (fun v => 128 + v) 128 = 128 + orElse o id 0 := by cases o <;> rfl
 
-theorem plain_refines (b0 b1 : Nat) (info : Bytes) (h0 : b0 < 256) (h1 : b1 < 256)
-    (ht : plainType ((b0 % 4) * 4 + b1 / 64)) :
-    toOpt (decode (b0 :: b1 :: info)) = Spec.decode (b0 :: b1 :: info) := by
-  rw [decode_cons2 b0 b1 info h1]
+theorem nested_refines (b0 b1 : Nat) (info : Bytes) (h1 : b1 < 256) :
+    toOpt (decodeNested (b0 :: b1 :: info) 0 (info.length + 2)) = Spec.decodeS (b0 :: b1 :: info) := by
+  rw [nested_cons2 b0 b1 info h1]
   have hdrE : decodeHeader (b0 :: b1 :: info) 0 (info.length + 2) = .ok (b0 / 4, b1 % 64) := by
     simp [decodeHeader, unpackBB]
-  rcases ht with hp | hp | hp | hp | hp | hp | hp | hp | hp | hp
-  all_goals simp only [hp, kindOf, Spec.decode, Spec.decodeS]
+  have ht : (b0 % 4) * 4 + b1 / 64 = 0 ∨ (b0 % 4) * 4 + b1 / 64 = 1 ∨ (b0 % 4) * 4 + b1 / 64 = 2 ∨
+      (b0 % 4) * 4 + b1 / 64 = 3 ∨ (b0 % 4) * 4 + b1 / 64 = 4 ∨ (b0 % 4) * 4 + b1 / 64 = 5 ∨
+      (b0 % 4) * 4 + b1 / 64 = 6 ∨ (b0 % 4) * 4 + b1 / 64 = 7 ∨ (b0 % 4) * 4 + b1 / 64 = 8 ∨
+      (b0 % 4) * 4 + b1 / 64 = 9 ∨ (b0 % 4) * 4 + b1 / 64 = 10 ∨ (b0 % 4) * 4 + b1 / 64 = 11 ∨
+      (b0 % 4) * 4 + b1 / 64 = 12 ∨ (b0 % 4) * 4 + b1 / 64 = 13 ∨ (b0 % 4) * 4 + b1 / 64 = 14 ∨
+      (b0 % 4) * 4 + b1 / 64 = 15 := by omega
+  rcases ht with hp | hp | hp | hp | hp | hp | hp | hp | hp | hp | hp | hp | hp | hp | hp | hp
+  all_goals simp only [hp, kindOf, Spec.decodeS]
   · -- SYMM
     simp only [decSymm, hdrE, Py.bind_ok]
     rcases info with _ | ⟨x, xs⟩
-    · by_cases c1 : b0 / 4 = 0 <;> by_cases c2 : b1 % 64 = 0 <;> simp [c1, c2, toOpt]
-    · by_cases c1 : b0 / 4 = 0 <;> by_cases c2 : b1 % 64 = 0 <;> simp [c1, c2, toOpt]
+    · by_cases c1 : b0 / 4 = 0 <;> by_cases c2 : b1 % 64 = 0 <;> simp [c1, c2]
+    · by_cases c1 : b0 / 4 = 0 <;> by_cases c2 : b1 % 64 = 0 <;> simp [c1, c2]
+  · -- PAX
+    simp only [decPax, hdrE, Py.bind_ok, tlvLoop_cons2]
+    by_cases c : b0 / 4 = 0 ∧ b1 % 64 = 0
+    · obtain ⟨c1, c2⟩ := c
+      have c' : ¬ (b0 / 4 ≠ 0 ∨ b1 % 64 ≠ 0) := by omega
+      rw [if_neg c', if_pos ⟨c1, c2⟩, toOpt_bind, run_spec paxApp info.length info {} (Nat.le_refl _), c1, c2]
+      cases Spec.params info.length info with
+      | none => rfl
+      | some ps =>
+        have f1 := lastSome_field (specStep paxApp) PaxSt.version Spec.Param.getVersion
+          (by intro s p; cases p <;> simp [specStep, tlvOf, paxApp, orElse, Spec.Param.getVersion])
+          {} ps rfl
+        have f2 := lastSome_field (specStep paxApp) PaxSt.miux Spec.Param.getMiux
+          (by intro s p; cases p <;> simp [specStep, tlvOf, paxApp, orElse, Spec.Param.getMiux])
+          {} ps rfl
+        have f3 := lastSome_field (specStep paxApp) PaxSt.wks Spec.Param.getWks
+          (by intro s p; cases p <;> simp [specStep, tlvOf, paxApp, orElse, Spec.Param.getWks])
+          {} ps rfl
+        have f4 := lastSome_field (specStep paxApp) PaxSt.lto Spec.Param.getLto
+          (by intro s p; cases p <;> simp [specStep, tlvOf, paxApp, orElse, Spec.Param.getLto])
+          {} ps rfl
+        have f5 := lastSome_field (specStep paxApp) PaxSt.opt Spec.Param.getOpt
+          (by intro s p; cases p <;> simp [specStep, tlvOf, paxApp, orElse, Spec.Param.getOpt])
+          {} ps rfl
+        simp [f1, f2, f3, f4, f5]
+    · have c' : (b0 / 4 ≠ 0 ∨ b1 % 64 ≠ 0) := by omega
+      rw [if_pos c', if_neg c]; rfl
+  · -- AGF inside an aggregate is refused
+    rfl
   · -- UI
-    simp [decUi, hdrE, toOpt, sliceN]
+    simp [decUi, hdrE, sliceN]
+  · -- CONNECT
+    simp only [decConnect, hdrE, Py.bind_ok, tlvLoop_cons2, toOpt_bind,
+      run_spec connApp info.length info {} (Nat.le_refl _)]
+    cases Spec.params info.length info with
+    | none => rfl
+    | some ps =>
+      have f1 := lastSome_nat (specStep connApp) ConnSt.miu Spec.Param.getMiux (fun v => 128 + v) 128
+        (by intro s p; cases p <;> simp [specStep, tlvOf, connApp, orElse, Spec.Param.getMiux]
+            exact congrArg _ (connApp_other _ _ _ (other_ne _ 6 (by omega))))
+        {} ps rfl
+      have f2 := lastSome_nat (specStep connApp) ConnSt.rw Spec.Param.getRw id 1
+        (by intro s p; cases p <;> simp [specStep, tlvOf, connApp, orElse, Spec.Param.getRw]
+            exact congrArg _ (connApp_other _ _ _ (other_ne _ 6 (by omega))))
+        {} ps rfl
+      have f3 := lastSome_field (specStep connApp) ConnSt.sn Spec.Param.getSn
+        (by intro s p; cases p <;> simp [specStep, tlvOf, connApp, orElse, Spec.Param.getSn]
+            exact congrArg _ (connApp_other _ _ _ (other_ne _ 6 (by omega))))
+        {} ps rfl
+      simp [f1, f2, f3, getD_orElse, orElse_add]
   · -- DISC
-    simp [decDisc, hdrE, toOpt]
+    simp [decDisc, hdrE]
+  · -- CC
+    simp only [decCc, hdrE, Py.bind_ok, tlvLoop_cons2, toOpt_bind,
+      run_spec ccApp info.length info {} (Nat.le_refl _)]
+    cases Spec.params info.length info with
+    | none => rfl
+    | some ps =>
+      have f1 := lastSome_nat (specStep ccApp) ConnSt.miu Spec.Param.getMiux (fun v => 128 + v) 128
+        (by intro s p; cases p <;> simp [specStep, tlvOf, ccApp, orElse, Spec.Param.getMiux])
+        {} ps rfl
+      have f2 := lastSome_nat (specStep ccApp) ConnSt.rw Spec.Param.getRw id 1
+        (by intro s p; cases p <;> simp [specStep, tlvOf, ccApp, orElse, Spec.Param.getRw])
+        {} ps rfl
+      simp [f1, f2, getD_orElse, orElse_add]
   · -- DM
-    rcases info with _ | ⟨r, _ | ⟨x, xs⟩⟩ <;> simp [decDm, decodeHeader, unpackBB, toOpt, unpackB]
+    rcases info with _ | ⟨r, _ | ⟨x, xs⟩⟩ <;> simp [decDm, decodeHeader, unpackBB, unpackB]
   · -- FRMR
     rcases info with _ | ⟨x0, _ | ⟨x1, _ | ⟨x2, _ | ⟨x3, _ | ⟨x4, xs⟩⟩⟩⟩⟩ <;>
-      simp [decFrmr, decodeHeader, unpackBB, toOpt, unpackBBBB]
+      simp [decFrmr, decodeHeader, unpackBB, unpackBBBB]
+  · -- SNL
+    simp only [decSnl, hdrE, Py.bind_ok, tlvLoop_cons2]
+    by_cases c : b0 / 4 = 1 ∧ b1 % 64 = 1
+    · obtain ⟨c1, c2⟩ := c
+      have c' : ¬ (b0 / 4 ≠ 1 ∨ b1 % 64 ≠ 1) := by omega
+      rw [if_neg c', if_pos ⟨c1, c2⟩, toOpt_bind, run_spec snlApp info.length info {} (Nat.le_refl _), c1, c2]
+      cases Spec.params info.length info with
+      | none => rfl
+      | some ps =>
+        have f1 := filterMap_field (specStep snlApp) SnlSt.sdreq Spec.Param.getSdreq
+          (by intro s p; cases p <;> simp [specStep, tlvOf, snlApp, orElse, Spec.Param.getSdreq])
+          {} ps
+        have f2 := filterMap_field (specStep snlApp) SnlSt.sdres Spec.Param.getSdres
+          (by intro s p; cases p <;> simp [specStep, tlvOf, snlApp, orElse, Spec.Param.getSdres])
+          {} ps
+        simp [f1, f2]
+    · have c' : (b0 / 4 ≠ 1 ∨ b1 % 64 ≠ 1) := by omega
+      rw [if_pos c', if_neg c]; rfl
+  · -- DPS
+    simp only [decDps, hdrE, Py.bind_ok, tlvLoop_cons2]
+    by_cases c : b0 / 4 = 0 ∧ b1 % 64 = 0
+    · obtain ⟨c1, c2⟩ := c
+      have c' : ¬ (b0 / 4 ≠ 0 ∨ b1 % 64 ≠ 0) := by omega
+      rw [if_neg c', if_pos ⟨c1, c2⟩, toOpt_bind, run_spec dpsApp info.length info {} (Nat.le_refl _), c1, c2]
+      cases Spec.params info.length info with
+      | none => rfl
+      | some ps =>
+        have f1 := lastSome_field (specStep dpsApp) DpsSt.ecpk Spec.Param.getEcpk
+          (by intro s p; cases p <;> simp [specStep, tlvOf, dpsApp, orElse, Spec.Param.getEcpk]
+              exact congrArg _ (dpsApp_other _ _ _ (other_ne _ 10 (by omega)) (other_ne _ 11 (by omega))))
+          {} ps rfl
+        have f2 := lastSome_field (specStep dpsApp) DpsSt.rn Spec.Param.getRn
+          (by intro s p; cases p <;> simp [specStep, tlvOf, dpsApp, orElse, Spec.Param.getRn]
+              exact congrArg _ (dpsApp_other _ _ _ (other_ne _ 10 (by omega)) (other_ne _ 11 (by omega))))
+          {} ps rfl
+        simp [f1, f2]
+    · have c' : (b0 / 4 ≠ 0 ∨ b1 % 64 ≠ 0) := by omega
+      rw [if_pos c', if_neg c]; rfl
   · -- unknown 1011
     have e : (b0 * 4 + b1 / 64) % 16 = 11 := by omega
-    simp [decUnknown, hdrE, toOpt, idxN, sliceN, e]
+    simp [decUnknown, hdrE, idxN, sliceN, e]
   · -- I
     rcases info with _ | ⟨sq, sdu⟩
-    · simp [decInfo, decodeHeaderN, toOpt]
+    · simp [decInfo, decodeHeaderN]
     · have c : ¬ (sdu.length + 1 + 2 < 3) := by omega
-      simp [decInfo, decodeHeaderN, unpackBBB, toOpt, sliceN, c]
+      simp [decInfo, decodeHeaderN, unpackBBB, sliceN, c]
   · -- RR
     rcases info with _ | ⟨sq, sdu⟩
-    · simp [decRr, decodeHeaderN, toOpt]
+    · simp [decRr, decodeHeaderN]
     · have c : ¬ (sdu.length + 1 + 2 < 3) := by omega
-      simp [decRr, decodeHeaderN, unpackBBB, toOpt, c]
+      simp [decRr, decodeHeaderN, unpackBBB, c]
   · -- RNR
     rcases info with _ | ⟨sq, sdu⟩
-    · simp [decRnr, decodeHeaderN, toOpt]
+    · simp [decRnr, decodeHeaderN]
     · have c : ¬ (sdu.length + 1 + 2 < 3) := by omega
-      simp [decRnr, decodeHeaderN, unpackBBB, toOpt, c]
+      simp [decRnr, decodeHeaderN, unpackBBB, c]
   · -- unknown 1111
     have e : (b0 * 4 + b1 / 64) % 16 = 15 := by omega
-    simp [decUnknown, hdrE, toOpt, idxN, sliceN, e]
+    simp [decUnknown, hdrE, idxN, sliceN, e]
+
+theorem nested_refines' (e : Bytes) (he : IsBytes e) :
+    toOpt (decodeNested e 0 e.length) = Spec.decodeS e := by
+  match e, he with
+  | [], _ => rfl
+  | [_], _ => rfl
+  | b0 :: b1 :: info, he => exact nested_refines b0 b1 info (he b1 (by simp))
+
+/-! ## aggregates and the module function -/
+
+theorem isBytes_take {l : Bytes} (h : IsBytes l) (n : Nat) : IsBytes (l.take n) :=
+  fun b hb => h b (List.mem_of_mem_take hb)
+theorem isBytes_drop {l : Bytes} (h : IsBytes l) (n : Nat) : IsBytes (l.drop n) :=
+  fun b hb => h b (List.mem_of_mem_drop hb)
+
+theorem aggregate_nil (sub : Bytes → Option SPdu) (n : Nat) : Spec.aggregate sub n [] = some [] := by
+  cases n <;> rfl
+theorem aggregate_single (sub : Bytes → Option SPdu) (n x : Nat) : Spec.aggregate sub n [x] = none := by
+  cases n <;> rfl
+theorem aggregate_cons (sub : Bytes → Option SPdu) (k a b : Nat) (rest : Bytes) :
+    Spec.aggregate sub (k + 1) (a :: b :: rest) =
+      if rest.length < a * 256 + b then none else
+      match sub (rest.take (a * 256 + b)), Spec.aggregate sub k (rest.drop (a * 256 + b)) with
+      | some p, some ps => some (p :: ps)
+      | _, _ => none := rfl
+
+theorem agfLoop_spec (n : Nat) (info : Bytes) (acc : List SPdu) (hn : info.length ≤ n) (hb : IsBytes info) :
+    toOpt (agfLoop n info 0 info.length acc) = (Spec.aggregate Spec.decodeS n info).map (fun ps => acc ++ ps) := by
+  induction n generalizing info acc with
+  | zero =>
+    have : info = [] := by cases info <;> simp_all
+    subst this
+    simp [agfLoop_done, aggregate_nil]
+  | succ k ih =>
+    match info, hn, hb with
+    | [], _, _ => simp [agfLoop_done, aggregate_nil]
+    | [x], _, _ =>
+      rw [aggregate_single]
+      have : agfLoop (k + 1) [x] 0 [x].length acc = .error .decodeError := by
+        rw [agfLoop_succ _ _ _ _ _ (by simp)]
+        simp [structToDecode, wrapExc, unpackH]
+      rw [this]; rfl
+    | a :: b :: rest, hn, hb =>
+      rw [aggregate_cons, agfLoop_succ _ _ _ _ _ (by simp)]
+      have hu : structToDecode (unpackH (a :: b :: rest) 0) = .ok (a * 256 + b) := by
+        simp [structToDecode, wrapExc, unpackH]
+      rw [hu]
+      simp only [Py.bind_ok]
+      by_cases hl : rest.length < a * 256 + b
+      · have : decodeNested (a :: b :: rest) (0 + 2) (a * 256 + b) = .error .decodeError := by
+          have c : 0 + 2 + (a * 256 + b) > (a :: b :: rest).length := by simp; omega
+          unfold decodeNested decodePre
+          rw [if_pos c]; rfl
+        simp [this, hl]
+      · simp only [hl, if_false]
+        have e1 : rest = rest.take (a * 256 + b) ++ rest.drop (a * 256 + b) := (List.take_append_drop _ rest).symm
+        have e2 : (rest.take (a * 256 + b)).length = a * 256 + b := by simp; omega
+        have hloc := decodeNested_local [a, b] (rest.take (a * 256 + b)) (rest.drop (a * 256 + b))
+        have e3 : [a, b] ++ rest.take (a * 256 + b) ++ rest.drop (a * 256 + b) = a :: b :: rest := by
+          simp [← e1]
+        rw [e3, e2] at hloc
+        have hbr : IsBytes rest := fun x hx => hb x (by simp [hx])
+        have href := nested_refines' (rest.take (a * 256 + b)) (isBytes_take hbr _)
+        rw [e2] at href
+        have hdec : toOpt (decodeNested (a :: b :: rest) (0 + 2) (a * 256 + b))
+            = Spec.decodeS (rest.take (a * 256 + b)) := by
+          rw [← href, ← hloc]; rfl
+        rw [toOpt_bind, hdec]
+        cases Spec.decodeS (rest.take (a * 256 + b)) with
+        | none => rfl
+        | some p =>
+          simp only [Option.bind_some]
+          have e4 : 0 + 2 + (a * 256 + b) = ([a, b] ++ rest.take (a * 256 + b)).length + 0 := by simp [e2]; omega
+          have e5 : (a :: b :: rest).length - 2 - (a * 256 + b) = (rest.drop (a * 256 + b)).length := by simp
+          have e6 : a :: b :: rest = ([a, b] ++ rest.take (a * 256 + b)) ++ rest.drop (a * 256 + b) := e3.symm
+          rw [e4, e5]
+          conv => lhs; rw [e6]
+          rw [agfLoop_shift]
+          have hlen : (rest.drop (a * 256 + b)).length ≤ k := by simp at hn ⊢; omega
+          rw [ih _ _ hlen (isBytes_drop hbr _)]
+          cases Spec.aggregate Spec.decodeS k (rest.drop (a * 256 + b)) <;> simp
+
+theorem kindOf_agf {t : Nat} (h : kindOf t = .agf) : t = 2 := by
+  unfold kindOf at h
+  split at h <;> first | rfl | cases h
+
+/-- for every octet string the decoder returns what the reading of the frame formats returns -/
+theorem decode_refines (b : Bytes) (hb : IsBytes b) : toOpt (decode b) = Spec.decode b := by
+  match b, hb with
+  | [], _ => rfl
+  | [_], _ => rfl
+  | b0 :: b1 :: info, hb =>
+    have h1 : b1 < 256 := hb b1 (by simp)
+    have hinfo : IsBytes info := fun x hx => hb x (by simp [hx])
+    rw [decodeAt_cons2 b0 b1 info h1]
+    have hn := nested_refines b0 b1 info h1
+    rw [nested_cons2 b0 b1 info h1] at hn
+    by_cases ht : (b0 % 4) * 4 + b1 / 64 = 2
+    · simp only [ht, show kindOf 2 = Kind.agf from rfl, Spec.decode, if_true]
+      have hdrE : decodeHeader (b0 :: b1 :: info) 0 (info.length + 2) = .ok (b0 / 4, b1 % 64) := by
+        simp [decodeHeader, unpackBB]
+      simp only [decAgf, hdrE, Py.bind_ok]
+      by_cases c : b0 / 4 = 0 ∧ b1 % 64 = 0
+      · obtain ⟨c1, c2⟩ := c
+        have c' : ¬ (b0 / 4 ≠ 0 ∨ b1 % 64 ≠ 0) := by omega
+        have hshift : agfLoop (info.length + 2 - 2) (b0 :: b1 :: info) (0 + 2) (info.length + 2 - 2) []
+            = agfLoop info.length info 0 info.length [] := by
+          have h : info.length + 2 - 2 = info.length := by omega
+          rw [h]
+          exact agfLoop_shift info.length [b0, b1] info 0 info.length []
+        rw [if_neg c', if_pos ⟨c1, c2⟩, toOpt_bind, hshift, agfLoop_spec _ _ _ (Nat.le_refl _) hinfo, c1, c2]
+        cases Spec.aggregate Spec.decodeS info.length info <;> simp
+      · have c' : (b0 / 4 ≠ 0 ∨ b1 % 64 ≠ 0) := by omega
+        rw [if_pos c', if_neg c]; rfl
+    · simp only [Spec.decode, ht, if_false]
+      rw [← hn]
+      cases hk : kindOf ((b0 % 4) * 4 + b1 / 64) with
+      | agf => exact absurd (kindOf_agf hk) ht
+      | simple dec =>
+        simp only [toOpt_bind]
+        cases dec (b0 :: b1 :: info) 0 (info.length + 2) <;> rfl
 
 end Impl
 end NfcVerif.Pdu
